@@ -252,7 +252,11 @@ func (fi *FuncInfo) isBuiltin(e ast.Expr, name string) *ast.CallExpr {
 	if !ok {
 		return nil
 	}
-	b, ok := fi.Info.ObjectOf(id).(*types.Builtin)
+	obj := fi.Info.ObjectOf(id)
+	if obj == nil && !id.Pos().IsValid() {
+		obj = types.Universe.Lookup(id.Name) // an identifier synthesised by a rule (ast.NewIdent)
+	}
+	b, ok := obj.(*types.Builtin)
 	if !ok || b.Name() != name {
 		return nil
 	}
@@ -947,4 +951,51 @@ func (fi *FuncInfo) expandLocalsN(e ast.Expr, depth int) ast.Expr {
 		return &ast.CallExpr{Fun: fun, Lparen: x.Lparen, Args: args, Ellipsis: x.Ellipsis, Rparen: x.Rparen}
 	}
 	return e
+}
+
+// madeWithLen: x (a variable, or a field of a variable defined by a composite
+// literal) holds a slice created by make(T, N) and nowhere re-assigned; N is returned.
+func (fi *FuncInfo) madeWithLen(x ast.Expr) ast.Expr {
+	x = ast.Unparen(x)
+	var found ast.Expr
+	count := 0
+	fi.inspect(fi.Decl.Body, func(m ast.Node) bool {
+		as, ok := m.(*ast.AssignStmt)
+		if !ok || len(as.Lhs) != len(as.Rhs) {
+			return true
+		}
+		for i, l := range as.Lhs {
+			if fi.sameExpr(l, x) {
+				count++
+				if mk := fi.isBuiltin(as.Rhs[i], "make"); mk != nil && len(mk.Args) >= 2 {
+					found = mk.Args[1]
+				}
+			}
+		}
+		return true
+	})
+	if sel, ok := x.(*ast.SelectorExpr); ok && count == 0 {
+		// v.F with v := &T{F: make(…, N)} / T{F: make(…, N)}
+		if d := fi.defOf(sel.X); d != nil && d.rhs != nil {
+			lit := ast.Unparen(d.rhs)
+			if u, ok := lit.(*ast.UnaryExpr); ok {
+				lit = ast.Unparen(u.X)
+			}
+			if cl, ok := lit.(*ast.CompositeLit); ok {
+				for _, el := range cl.Elts {
+					if kv, ok := el.(*ast.KeyValueExpr); ok {
+						if id, ok := kv.Key.(*ast.Ident); ok && id.Name == sel.Sel.Name {
+							if mk := fi.isBuiltin(kv.Value, "make"); mk != nil && len(mk.Args) >= 2 {
+								return mk.Args[1]
+							}
+						}
+					}
+				}
+			}
+		}
+	}
+	if count == 1 {
+		return found
+	}
+	return nil
 }
